@@ -9,5 +9,6 @@ STAGES = {
     "C11": [S("rel", "rel", "c11")],
     "C16": [S("rel", "rel", "c16")],
     "C18": [S("rel", "rel", "c18")],
+    "C19": [S("rel", "rel", "c19")],
     "C20": [S("rel", "rel", "c20"), S("conc", "conc", "c20", env={"RAYON_NUM_THREADS": 5, "VERIF_SCALE": 0.5})],
 }
